@@ -257,10 +257,11 @@ def drawn_cell_expr(fc, e, at):
 
 def run(ctx):
     model = ctx.model
-    check_init(ctx)
-    check_rank(ctx)
-    check_weights(ctx)
-    check_point(ctx)
+    f13 = model.cls("VROOM").file
+    ctx.attempt("R13-FORM", f13, "VROOM.__init__", "schedule constants", check_init, ctx)
+    ctx.attempt("R13-RANK", f13, "VROOM.rank", "ranking", check_rank, ctx)
+    ctx.attempt("R13-WEIGHT", f13, "VROOM.pull", "weights", check_weights, ctx)
+    ctx.attempt("R13-POINT", f13, "VROOM.pull", "sampled point", check_point, ctx)
     from . import c01, c03, c04
     tmp = Ctx(ctx.prop, ctx.tier, ctx.seed, model)
     cls = model.cls("VROOM")
